@@ -74,13 +74,15 @@ func execBrd(o *Out, id, line string) {
 	var out []byte
 	var err error
 	var inOff, outOff int64
-	_, p := catch(func() {
-		if !withWatchdog(timeSec(60), func() { out, err, inOff, outOff = dsnetBrotliAll(in, "bytes", nil) }) {
-			err = fmt.Errorf("hang")
-		}
-	})
+	var p interface{}
+	if !withWatchdog(timeSec(60), func() {
+		_, p = catch(func() { out, err, inOff, outOff = dsnetBrotliAll(in, "bytes", nil) })
+	}) {
+		err = fmt.Errorf("hang")
+	}
 	if p != nil {
 		o.Violate("C08", fmt.Sprintf("brotli.Reader panicked: %v", p), "brotli-panic", line)
+		o.Emit(id, line, "", "panic", kv["in"])
 		return
 	}
 	if err != nil && err.Error() == "hang" {
